@@ -253,6 +253,10 @@ Definition chunks_impl (md : mode) (p : cparams) (hint : N) (s : bytes) (sched :
 (* check_rabin_params: Ok iff none of the error conditions found in the source holds *)
 Definition rabin_accepts (cs mn mx : N) : bool := negb (existsb (fun b => b) (rabin_param_errors cs mn mx)).
 
+(* check_rabin_polynomial (ChunkIter::from_config): the stored polynomial is used only if the
+   condition found in the source holds (`true` when the source has no such check) *)
+Definition poly_accepts (P : N) : bool := poly_accepts_src P.
+
 (* ------------------------------------------------------------------ fixed-size ChunkIter *)
 Record fstate := { f_finished : bool; f_hint : N }.
 Definition fixed_next (size : N) (st : fstate) (rest : bytes) (sched : list rd)
